@@ -25,6 +25,50 @@ def buf_types(ty):
     return ty.startswith('std::vec::Vec<u8') or ty.startswith('[u8;') or ty.startswith('std::boxed::Box<[u8')
 
 
+class _ArgView:
+    """a comparison performed inside a helper, seen from the call site: same interface as a Term for the two compared operands"""
+    def __init__(self, method, args):
+        self.cmethod = method
+        self.args = args
+
+
+def helper_comparison(prog, body, ct):
+    """If `ct` calls a workspace function returning bool whose result is (a polarity of) one comparison of two of its parameters,
+    return (_ArgView(method, [caller operands]), polarity)."""
+    cands, exact = resolve_call(prog, body, ct)
+    if not exact or len(cands) != 1:
+        return None
+    h = cands[0]
+    if h.lty(0) != 'bool':
+        return None
+    e = expr_of(h, _RetOp())
+    r = comparison_polarity(h, e)
+    if r is None:
+        return None
+    cb, cterm, pol = r
+    if cterm.cmethod not in COMPARE_METHODS or len(cterm.args) < 2:
+        return None
+    mapped = []
+    for a in cterm.args[:2]:
+        if a.place is None:
+            return None
+        roots = [p for p in range(1, h.arg_count + 1) if must_derive(h, a.place[0], lambda k, ob, bb, p=p: k == 'param' and ob == p)]
+        if len(roots) != 1 or roots[0] - 1 >= len(ct.args):
+            return None
+        mapped.append(ct.args[roots[0] - 1])
+    # every return of the helper goes through that comparison (single expression body)
+    return _ArgView(cterm.cmethod, mapped), pol
+
+
+class _RetOp:
+    kind = 'copy'
+    place = (0, ())
+    k = None
+
+    def const_int(self):
+        return None
+
+
 def check_decrypt_site(prog, body, blk, rep):
     t = blk.term
     fn = body.nkey
@@ -56,7 +100,13 @@ def check_decrypt_site(prog, body, blk, rep):
             continue
         cb, ct, tgt_true, tgt_false = r
         if ct.cmethod not in COMPARE_METHODS or len(ct.args) < 2:
-            continue
+            # one level of workspace helper: `fn tags_match(a, b) -> bool { a.ct_eq(b).. }`
+            h = helper_comparison(prog, body, ct)
+            if h is None:
+                continue
+            ct, pol = h
+            if not pol:
+                tgt_true, tgt_false = tgt_false, tgt_true
         if ct.cmethod == 'ne':
             pass  # polarity handled by comparison_polarity
         # one operand must-derives from the tag, the other must not derive from it
